@@ -50,7 +50,10 @@ FAILING = {
 THRESHOLDS = ("LIKELY_SAFE", "POSSIBLY_UNSAFE", "SUSPICIOUS", "LIKELY_UNSAFE", "LIKELY_OVERTLY_MALICIOUS", "OVERTLY_MALICIOUS")
 _BASE_ARMINGS = ("fickling.load", "global-hook", "context-manager")
 PRIOR = "+after-permissive-context"  # a context accepting every verdict was entered and left earlier in the process
-ARMINGS = _BASE_ARMINGS + tuple(a + PRIOR for a in _BASE_ARMINGS)
+# the global check is armed, then a context object that was constructed *before* the arming is entered and left: the global
+# check is still in force afterwards
+EARLY = "+after-early-constructed-context"
+ARMINGS = _BASE_ARMINGS + tuple(a + PRIOR for a in _BASE_ARMINGS) + ("global-hook" + EARLY,)
 # "BytesIO@offset": the pickle sits behind another one in the buffer and the stream is positioned at its start; the
 # pickle in front is a sink call when the input is benign and a harmless constant when the input itself is flagged
 KINDS = ("bytes", "BytesIO", "file", "nonseekable", "BytesIO@offset")
@@ -126,8 +129,17 @@ def armed_load(arming, src, threshold):
         with FicklingContextManager(max_acceptable_severity=Severity.OVERTLY_MALICIOUS):
             pass
         restore()
+    early = None
+    if arming.endswith(EARLY):
+        arming = arming[: -len(EARLY)]
+        early = fickling.check_safety()
     try:
         try:
+            if early is not None:
+                fickling.always_check_safety()
+                with early:
+                    pass
+                return "returned", pickle.load(src)
             if arming == "fickling.load":
                 return "returned", fickling.load(src, max_acceptable_severity=getattr(Severity, threshold))
             if arming == "global-hook":
